@@ -26,7 +26,8 @@ vars == <<q, max, frag, last, highWater>>
 
 Init == q = <<>> /\ max = 6 /\ frag = TRUE /\ last = [op |-> "init"] /\ highWater = 6
 
-\* how \in {"fresh", "mutate", "reuse"}: what the caller does with its frame object; it must not matter
+\* how \in {"fresh", "mutate", "reuse", "str"}: what the caller does with its frame object ("str": the type is given as the
+\* one-character string the header documents); it must not matter
 Enq(f, how) == /\ q' = EnqNext(q, max, f)
                /\ last' = [op |-> "enq", res |-> EnqOk(q, max, f)]
                /\ UNCHANGED <<max, frag, highWater>>
@@ -41,7 +42,7 @@ SetMax(n) == /\ max' = n /\ last' = [op |-> "setmax"] /\ highWater' = IF Len(q) 
              /\ UNCHANGED <<q, frag>>
 Toggle == /\ frag' = ~frag /\ last' = [op |-> "toggle"] /\ UNCHANGED <<q, max, highWater>>
 
-Next == \/ \E f \in Frames, how \in {"fresh", "mutate", "reuse"} : Enq(f, how)
+Next == \/ \E f \in Frames, how \in {"fresh", "mutate", "reuse", "str"} : Enq(f, how)
         \/ \E f \in Frames : EnqFrag(f)
         \/ Deq \/ Peek \/ Toggle
         \/ \E n \in MaxSizes : SetMax(n)
